@@ -29,4 +29,6 @@ ENTRIES = [
     ("c10_load_validates_entries",) + _ANY + ("N", _probe("load_validates_entries", 1)),
     # resume_load_uncertain_pieces skips an index at or beyond the piece count (1) / lets update_range throw (0)
     ("c10_unc_skips_out_of_range",) + _ANY + ("N", _probe("unc_skips_out_of_range", 1)),
+    # resume_save_uncertain_pieces leaves the stored list alone while the download is not hash checked (1) / erases it (0)
+    ("c10_unc_kept_while_unchecked",) + _ANY + ("N", _probe("unc_kept_while_unchecked", 0)),
 ]
